@@ -529,9 +529,11 @@ void copy_hfe(bool hfe3, const byte* begin, const byte* end,
   int got_bits = 0;
   byte out = 0;
   byte this_op = 0;
+  // The number of bits to skip at the start of the next data byte
+  // (set by the SKIPBITS opcode, whose operand precedes that byte).
+  int skipbits = 0;
   while (begin != end)
     {
-      int skipbits = 0;
       byte in = *begin++;
       if (this_op)
 	{
@@ -567,11 +569,14 @@ void copy_hfe(bool hfe3, const byte* begin, const byte* end,
 		  }
 		if (in >= 8)
 		  {
-		    std::cerr << "HFEv3: unexpected SKIPBITS argument " << in << "\n";
-		    continue;
+		    std::cerr << "HFEv3: unexpected SKIPBITS argument "
+			      << static_cast<unsigned int>(in) << "\n";
+		    skipbits = 0;
 		  }
+		// The operand is not itself track data; the bits to be
+		// skipped are the leading bits of the byte after it.
+		continue;
 	      }
-	      break;
 
 	    case RAND_OPCODE:
 	      /* The purpose of RAND_OPCODE is, I think, so that the
@@ -678,13 +683,22 @@ void copy_hfe(bool hfe3, const byte* begin, const byte* end,
 	     data, we worry about that separately. */
 	  out = static_cast<byte>((out >> 1 ) | bit);
 	  ++got_bits;
+	  // After a SKIPBITS the cells are no longer aligned with the
+	  // input bytes, so we can complete an output byte part-way
+	  // through an input byte.
+	  if (8 == got_bits)
+	    {
+	      *dest++ = out;
+	      out = 0;
+	      got_bits = 0;
+	    }
 	}
-      if (8 == got_bits)
-	{
-	  *dest++ = out;
-	  out = 0;
-	  got_bits = 0;
-	}
+    }
+  if (got_bits)
+    {
+      // Flush the final partial byte (the cells occupy its low bits,
+      // in stream order).
+      *dest++ = static_cast<byte>(out >> (8 - got_bits));
     }
   if (this_op)
     {
@@ -755,6 +769,12 @@ HfeFile::read_all_sectors(const std::vector<PicTrack>& lut,
       // etc.) but we only want the data for one of the sides.
       std::vector<byte> track_stream;
       track_stream.reserve(track_len_in_bytes / 2);
+      // First gather the blocks belonging to this side; the cell
+      // stream (and any HFEv3 opcode together with its operand) simply
+      // continues from one block of a side to the next block of that
+      // side, so it has to be interpreted as a whole.
+      std::vector<byte> side_data;
+      side_data.reserve(track_len_in_bytes / 2);
       auto begin_offset = side_block_size * side;
       while (begin_offset < track_bytes_read)
 	{
@@ -777,10 +797,9 @@ HfeFile::read_all_sectors(const std::vector<PicTrack>& lut,
 #if ULTRA_VERBOSE
 	  auto oldsize = track_stream.size();
 #endif
-	  copy_hfe(3 == hfe_version_,
-		   raw_data.data() + begin_offset,
-		   raw_data.data() + end_offset,
-		   std::back_inserter(track_stream));
+	  side_data.insert(side_data.end(),
+			   raw_data.begin() + begin_offset,
+			   raw_data.begin() + end_offset);
 	  if (DFS::verbose)
 	    {
 #if ULTRA_VERBOSE
@@ -792,6 +811,9 @@ HfeFile::read_all_sectors(const std::vector<PicTrack>& lut,
 	    }
 	  begin_offset += raw_data_block_size;
 	}
+      copy_hfe(3 == hfe_version_,
+	       side_data.data(), side_data.data() + side_data.size(),
+	       std::back_inserter(track_stream));
 #if ULTRA_VERBOSE
       if (DFS::verbose)
 	{
